@@ -34,7 +34,7 @@ fn hist_opts(prop: &str, rng: &mut Rng, thorough: bool) -> GenOpts {
     if prop == "C09" {
         o.phony = rng.chance(1, 2);
     }
-    o.defaults = rng.chance(1, 5);
+    o.defaults = rng.chance(1, if prop == "C17" { 2 } else { 5 });
     o
 }
 
@@ -814,6 +814,7 @@ fn history_case(ctx: &Ctx, dir: &std::path::Path, case: u64, seed: u64, rep: &mu
 /// C17: make the manifest a generated file and produce 1-3 future generations.
 pub fn make_generations(proj: &mut Project, rng: &mut Rng) -> Vec<Project> {
     proj.sources.push("gen.in".into());
+    proj.quiet_generator = rng.chance(1, 3);
     let mut ins = vec!["gen.in".to_string()];
     if rng.chance(1, 3) {
         if let Some(s) = proj.sources.first().cloned() {
@@ -873,7 +874,8 @@ pub fn make_generations(proj: &mut Project, rng: &mut Rng) -> Vec<Project> {
                         id.push('x');
                     }
                     let src = next.sources[0].clone();
-                    let pos = next.steps.len() - 1;
+                    // anywhere before the generator step: shifts the internal numbering of later files
+                    let pos = rng.below(next.steps.len());
                     next.steps.insert(
                         pos,
                         Step {
